@@ -68,7 +68,7 @@ def main():
             for c in cps:
                 parts = c.split()
                 srcs, dst = parts[1:-1], parts[-1]
-                dst = re.sub(r"^(/tmp/s[abcde]_%s|\$W|\$REPO)/?" % pid, "", dst)
+                dst = re.sub(r"^(/tmp/s[a-z]_%s|\$W|\$REPO)/?" % pid, "", dst)
                 d = os.path.join(w, dst)
                 for s_ in srcs:
                     import glob
